@@ -587,3 +587,33 @@ gproof! { #[kani::unwind(4)] fn c14_headerslice_hash_equal_for_equal() {
     core::mem::forget(keep);
     assert!(h1 == h2 && l1 == l2 && s1 == s2);
 } }
+
+// ------------------------------------------------------------------------------------------
+// thorough tier: the element-loop obligations again with a larger bound
+// ------------------------------------------------------------------------------------------
+// @h props=C06,C05 tier=thorough bounded=len<=6 fuc=Arc::from_header_and_iter
+gproof! { #[kani::unwind(8)] fn c06_from_header_and_iter__tr_len6() {
+    let len: usize = kani::any();
+    kani::assume(len <= 6);
+    let hd = Tr8::new();
+    let hid = hd.id;
+    let a = Arc::from_header_and_iter(hd, TrIter::new(len));
+    assert!(a.slice.len() == len && a.header.id == hid && cnt(&a) == 1);
+    let mut i = 0;
+    while i < len { assert!(a.slice[i].id == hid + 1 + i as u8 && !vrt::dropped(a.slice[i].id)); i += 1; }
+    assert!(vrt::drops() == 0 && vrt::clones() == 0 && vrt::ga(1) && vrt::gd(0));
+    drop(a);
+    assert!(vrt::drops() == len + 1 && vrt::gd(1) && vrt::glive(0));
+} }
+
+// @h props=C07 tier=thorough kind=maypanic bounded=reported,actual<=5 site="expect_failed|ExactSizeIterator (over|under)-reported length" fuc=Arc::from_header_and_iter
+gmay! { #[kani::unwind(8)] fn c07_from_header_and_iter_lying_len5() {
+    let (r, a): (usize, usize) = (kani::any(), kani::any());
+    kani::assume(r <= 5 && a <= 5 && r != a && (if r > a { r - a } else { a - r }) <= 2);
+    let arc = Arc::from_header_and_iter(Tr8::new(), TrIter::lying(r, a));
+    let n = arc.slice.len();
+    let mut i = 0;
+    while i < n { assert!(vrt::issued(arc.slice[i].id) && !vrt::dropped(arc.slice[i].id)); i += 1; }
+    drop(arc);
+    assert!(vrt::drops() == n + 1);
+} }
